@@ -19,7 +19,7 @@ def ensure_wt():
     return head
 def run_demo(tag, meta, demo):
     if demo.endswith(".rs"):
-        m = re.search(r"-p\s+(\S+)", meta["demo_run"])
+        m = re.search(r"cargo test[^#]*?-p\s+(ast-grep[\w-]*)", meta["demo_run"])
         crate = m.group(1)
         cdir = {"ast-grep-core": "core", "ast-grep-config": "config", "ast-grep-language": "language", "ast-grep": "cli", "ast-grep-lsp": "lsp"}[crate]
         os.makedirs(f"{WT}/crates/{cdir}/tests", exist_ok=True)
